@@ -64,7 +64,7 @@ theorem wPair_pc_nc (c : CC) (q2 : Rat) (q : Nat) (h1 : 1 ≤ q) (h6 : q ≤ 6)
       = specPC c.th.s2w c.ob.pol (lepSign c.ob.projectile) (c.etaPhZ q2) q := by
   have hq := electricCharge_quark q h1 h6
   have ht := weakIsospin3_quark q h1 h6
-  simp only [CC.wPair, CC.getWeightNC, CC.posBlocked, hpos, hproc, CC.leptonicCoupling,
+  simp only [CC.wPair, CC.getWeightNC, CC.getWeightNCraw, CC.posBlocked, hpos, hproc, CC.leptonicCoupling,
     CC.propagatorFactor, CC.partonicCouplingNC, CC.qph, CC.qZ, CC.vectorialCoupling,
     natAbs_charged c hproj, effPol_charged c hproj, QCT.VV, QCT.AA, QCT.isPC, Int.natAbs_natCast,
     hq, ht, specPC, gVq, gAq, gVe, gAe, electricCharge_11, weakIsospin3_11]
@@ -79,7 +79,7 @@ theorem wPair_pv_nc (c : CC) (q2 : Rat) (q : Nat) (h1 : 1 ≤ q) (h6 : q ≤ 6)
       = specPV c.th.s2w c.ob.pol (lepSign c.ob.projectile) (c.etaPhZ q2) q := by
   have hq := electricCharge_quark q h1 h6
   have ht := weakIsospin3_quark q h1 h6
-  simp only [CC.wPair, CC.getWeightNC, CC.posBlocked, hpos, hproc, CC.leptonicCoupling,
+  simp only [CC.wPair, CC.getWeightNC, CC.getWeightNCraw, CC.posBlocked, hpos, hproc, CC.leptonicCoupling,
     CC.propagatorFactor, CC.partonicCouplingNC, CC.qph, CC.qZ, CC.vectorialCoupling,
     natAbs_charged c hproj, effPol_charged c hproj, QCT.VA, QCT.AV, QCT.isPC, Int.natAbs_natCast,
     hq, ht, specPV, gVq, gAq, gVe, gAe, electricCharge_11, weakIsospin3_11]
@@ -93,12 +93,12 @@ theorem em_is_charge_sq (c : CC) (q2 : Rat) (q : Nat) (h1 : 1 ≤ q) (h6 : q ≤
     c.wPair q q2 false = eQ q ^ 2 ∧ c.wPair q q2 true = 0 := by
   have hq := electricCharge_quark q h1 h6
   constructor
-  · simp only [CC.wPair, CC.getWeightNC, CC.posBlocked, hpos, hproc, CC.leptonicCoupling,
+  · simp only [CC.wPair, CC.getWeightNC, CC.getWeightNCraw, CC.posBlocked, hpos, hproc, CC.leptonicCoupling,
       CC.propagatorFactor, CC.partonicCouplingNC, CC.qph, natAbs_charged c hproj, QCT.VV, QCT.AA,
       QCT.isPC, Int.natAbs_natCast, hq, electricCharge_11]
     simp
     ring
-  · simp only [CC.wPair, CC.getWeightNC, CC.posBlocked, hpos, hproc, CC.leptonicCoupling,
+  · simp only [CC.wPair, CC.getWeightNC, CC.getWeightNCraw, CC.posBlocked, hpos, hproc, CC.leptonicCoupling,
       CC.propagatorFactor, CC.partonicCouplingNC, CC.qph, natAbs_charged c hproj, QCT.VA, QCT.AV,
       QCT.isPC, Int.natAbs_natCast, hq, electricCharge_11]
     simp
